@@ -61,17 +61,34 @@ S2T(subs, keepAsDir, rootName, noLinks) ==      \* sequence of [path, kind, link
                   link |-> IF ~noLinks /\ out[i].kind = "file" /\ first(i) # i THEN out[first(i)].path ELSE <<>>]]
   IN (IF rootName = "-" THEN <<>> ELSE << [path |-> <<rootName>>, kind |-> "dir", link |-> <<>>] >>) \o body
 
+(* ---- tar2sqfs attribute options: --no-keep-time (-k) and --no-xattr (-x), with and without --root-becomes ---- *)
+(* one archive entry with a time stamp and possibly an xattr; directories that are only implied get the defaults (time 0) *)
+AEntry == [path : {<<"r">>, <<"r", "x">>, <<"y", "x">>}, kind : {"dir", "file"}, mtime : {5, 7}, xa : BOOLEAN]
+T2SAttr(e, rootBecomes, noKeepTime, noXattr) ==      \* set of [path, mtime, xa, implicit] in the image; path <<>> = the root inode
+  LET kept == ~rootBecomes \/ IsPrefix(Root, e.path)
+      p == IF rootBecomes THEN Drop(e.path, 1) ELSE e.path
+      own == [path |-> p, mtime |-> (IF noKeepTime THEN 0 ELSE e.mtime), xa |-> (e.xa /\ ~noXattr), implicit |-> FALSE]
+      parents == {[path |-> SubSeq(p, 1, k), mtime |-> 0, xa |-> FALSE, implicit |-> TRUE] : k \in 0..(Len(p) - 1)}
+  IN IF ~kept THEN {[path |-> <<>>, mtime |-> 0, xa |-> FALSE, implicit |-> TRUE]}
+     ELSE {own} \cup {q \in parents : q.path # p}
+AttrRefused(e, rootBecomes) == rootBecomes /\ e.path = Root /\ e.kind # "dir"
+
 (* ---- properties of the specification itself ---- *)
-VARIABLES arch, rb, nr, subs, kad, rn, nl
-vars == <<arch, rb, nr, subs, kad, rn, nl>>
+VARIABLES arch, rb, nr, subs, kad, rn, nl, ae, nk, nx
+vars == <<arch, rb, nr, subs, kad, rn, nl, ae, nk, nx>>
+AE0 == [path |-> <<"r">>, kind |-> "dir", mtime |-> 5, xa |-> FALSE]
 WellFormed(a) == /\ \A i, j \in 1..Len(a) : i # j => a[i].path # a[j].path
                  /\ \A i, j \in 1..Len(a) : (i # j /\ IsPrefix(a[i].path, a[j].path)) => (a[i].kind = "dir" /\ i < j)   \* parents are directories and come first
+A1 == << [path |-> <<"x">>, kind |-> "file", tgt |-> "-"] >>
 Init == IF Side = "t2s"
         THEN /\ \E k \in 1..MaxEntries : arch \in [1..k -> Entry]
              /\ WellFormed(arch)
              /\ rb \in BOOLEAN /\ nr \in BOOLEAN
-             /\ subs = {} /\ kad = FALSE /\ rn = "-" /\ nl = FALSE
-        ELSE /\ arch = << [path |-> <<"x">>, kind |-> "file", tgt |-> "-"] >> /\ rb = FALSE /\ nr = FALSE
+             /\ subs = {} /\ kad = FALSE /\ rn = "-" /\ nl = FALSE /\ ae = AE0 /\ nk = FALSE /\ nx = FALSE
+        ELSE IF Side = "attr"
+        THEN /\ arch = A1 /\ nr = FALSE /\ subs = {} /\ kad = FALSE /\ rn = "-" /\ nl = FALSE
+             /\ ae \in AEntry /\ rb \in BOOLEAN /\ nk \in BOOLEAN /\ nx \in BOOLEAN
+        ELSE /\ arch = A1 /\ rb = FALSE /\ nr = FALSE /\ ae = AE0 /\ nk = FALSE /\ nx = FALSE
              /\ subs \in SubdirSets /\ kad \in BOOLEAN /\ rn \in {"-", ".", "n"} /\ nl \in BOOLEAN
 Next == UNCHANGED vars
 Spec == Init /\ [][Next]_vars
@@ -86,6 +103,9 @@ LinksResolve == LET o == S2T(subs, kad, rn, nl) IN
 (* selecting everything and prefixing it with n, then making n the root again, gives the image back *)
 RoundTripShape == LET o == S2T({}, FALSE, "n", nl) IN
                   [i \in 1..(Len(o) - 1) |-> Drop(o[i + 1].path, 1)] = [i \in 1..Len(Img) |-> Img[i].path]
+(* the options only ever remove information: with -k no archive time stamp, with -x no xattr reaches the image *)
+AttrOptionsHonoured == \A n \in T2SAttr(ae, rb, nk, nx) : (nk => n.mtime = 0) /\ (nx => ~n.xa) /\ (n.implicit => (n.mtime = 0 /\ ~n.xa))
+EmitAttr == Emit => PrintT(<<"ATTR", ToJson([e |-> ae, rb |-> rb, nk |-> nk, nx |-> nx, refused |-> AttrRefused(ae, rb), out |-> T2SAttr(ae, rb, nk, nx)])>>)
 EmitOK == Emit => PrintT(<<"RESULT", ToJson([arch |-> arch, rb |-> rb, nr |-> nr, refused |-> T2SRefused(arch, rb), out |-> T2S(arch, rb, nr)])>>)
 EmitS2T == Emit => PrintT(<<"S2T", ToJson([subs |-> subs, kad |-> kad, rn |-> rn, nl |-> nl, out |-> S2T(subs, kad, rn, nl)])>>)
 =============================================================================
